@@ -8,7 +8,7 @@
     10  model set_val (real)     fmt r o raw arr vd              -> codes, flags, read-back values
 *)
 From Coq Require Import ZArith List Bool.
-From FxpVerif Require Import Spec SpecArith NP Store Status Convert Arith Div Conv Wire.
+From FxpVerif Require Import Spec SpecArith NP Store Status Convert Arith Div Conv Bitwise Wire.
 Import ListNotations.
 Open Scope Z_scope.
 
@@ -125,5 +125,12 @@ Definition dispatch (req : list Z) : list Z :=
                                                       (store_scaled f r o s b vs)) t
   | 53 :: t => run (f <- dfmt ;; s <- df64 ;; b <- df64 ;; dret (f, s, b))
                 (fun '(f, s, b) => let '(u, l, p) := scaled_limits f s b in ef64 u ++ ef64 l ++ ef64 p) t
+  (* 60: bitwise model: op (0 and,1 or,2 xor,3 not) fx cx y_is_fxp nwy cy r o -> outcome codes/flags *)
+  | 60 :: t => run (b <- dZ ;; fx <- dfmt ;; cx <- dZ ;; yf <- dbool ;; nwy <- dZ ;; cy <- dZ ;; r <- drmode ;; o <- domode ;;
+                    dret (b, fx, cx, yf, nwy, cy, r, o))
+                (fun '(b, fx, cx, yf, nwy, cy, r, o) =>
+                   eoutcome (ewres fx) (match b with
+                                        | 0 => fxp_bitwise BAnd fx cx yf nwy cy r o | 1 => fxp_bitwise BOr fx cx yf nwy cy r o
+                                        | 2 => fxp_bitwise BXor fx cx yf nwy cy r o | _ => fxp_invert fx cx r o end)) t
   | _ => bad_request
   end.
